@@ -2,7 +2,7 @@
 From Coq Require Import ZArith Bool List.
 Import ListNotations.
 Require Import TC.Base.Map TC.Store.Stores TC.Store.AbsMap TC.Store.Refine TC.Limiter.Arith TC.Limiter.KeyStep TC.Limiter.KeyLemmas
-  TC.Limiter.Limiter TC.Limiter.Abstract TC.Limiter.Project TC.Limiter.Window TC.Limiter.Decide TC.Limiter.Total TC.Limiter.Top TC.Limiter.Regress.
+  TC.Limiter.Limiter TC.Limiter.Abstract TC.Limiter.Project TC.Limiter.Window TC.Limiter.Decide TC.Limiter.Total TC.Limiter.Top TC.Limiter.Regress TC.Store.NoLoss.
 Open Scope Z_scope.
 Require Import TC.Properties.C17.
 
@@ -45,3 +45,22 @@ Check C17_refuted_by_stale_forget :
   admitted_qty Z Z.eqb 0 (map snd w_hist) w_outs w_t0 (w_t0 + 9 * w_ms) = 20 /\
   w_J = 19 * w_ms /\
   ~ (w_E * (admitted_qty Z Z.eqb 0 (map snd w_hist) w_outs w_t0 (w_t0 + 9 * w_ms) - 2) <= 9 * w_ms + w_J).
+Check C17_stale_forget_only_after_later_stamp :
+  forall (K : Type) (keqb : K -> K -> bool), (forall a b, reflect (a = b) (keqb a b)) ->
+  forall (s0 : store K) (ops : list (bool * sop K)) (k : K) (v ex : Z) (m : option Z) (now : Z),
+  sdata K s0 = [] ->
+  lookup keqb (snd (grun K keqb s0 [] ops)) k = Some (v, ex, m) ->
+  now < ex ->
+  d_get K keqb (sdata K (fst (srun K keqb s0 ops))) k now = None ->
+  exists t, m = Some t /\ now < ex <= t.
+Check C17_lookup_shows_last_write :
+  forall (K : Type) (keqb : K -> K -> bool), (forall a b, reflect (a = b) (keqb a b)) ->
+  forall (s0 : store K) (ops : list (bool * sop K)) (k : K) (v now : Z),
+  sdata K s0 = [] ->
+  d_get K keqb (sdata K (fst (srun K keqb s0 ops))) k now = Some v ->
+  exists ex m, lookup keqb (snd (grun K keqb s0 [] ops)) k = Some (v, ex, m) /\ now < ex.
+Check C17_stale_forget_event_exists :
+  let ops := [(false, SetNX 1 7 2 100); (false, SetNX 2 8 50 110)] in
+  let r := grun Z Z.eqb (periodic_new 0 0) [] ops in
+  lookup Z.eqb (snd r) 1 = Some (7, 102, Some 110) /\
+  d_get Z Z.eqb (sdata Z (fst (srun Z Z.eqb (periodic_new 0 0) ops))) 1 101 = None /\ 101 < 102 <= 110.
